@@ -52,6 +52,7 @@ def gen(rng, tier):
         names = ['S'] + names
         g = G.random_cfg(rng, len(names), 2, rng.randint(3, 8), maxlen=4, varnames=names)
         gs.append(g)
+    gs += [G.unit_cycle_cfg(rng) for _ in range(15 if quick else 300)] + [G.nullable_chain_cfg(rng) for _ in range(15 if quick else 300)]
     return [{'G': g} for g in gs]
 
 
